@@ -76,6 +76,10 @@ def pyval(t):
         return bytes.fromhex(t['y'])
     if 'z' in t:
         return bytes(t['z'])
+    if 't' in t:
+        return tuple(pyval(x) for x in t['t'])
+    if 'ya' in t or 'ym' in t:
+        return bytes.fromhex(t.get('ya') or t.get('ym') or '')
     return ('other', t['o'])
 
 
@@ -86,6 +90,10 @@ def show(t):
             return '[' + ', '.join(r(x) for x in t) + ']'
         if isinstance(t, dict) and 'z' in t:
             return 'bytes(%d)' % t['z']
+        if isinstance(t, dict) and 't' in t:
+            return '(' + ', '.join(r(x) for x in t['t']) + (',)' if len(t['t']) == 1 else ')')
+        if isinstance(t, dict) and ('ya' in t or 'ym' in t):
+            return ('bytearray(%r)' if 'ya' in t else 'memoryview(%r)') % bytes.fromhex(t.get('ya') or t.get('ym') or '')
         if isinstance(t, dict) and 'o' in t:
             return '<%s>' % t['o']
         return repr(pyval(t))
@@ -119,21 +127,45 @@ def cb(b):
     return segs[0] if len(segs) == 1 else '(' + ' ++ '.join(segs) + ')'
 
 
-def coq_arg(t, tags):
+def is_tuple(t):
+    return isinstance(t, dict) and 't' in t
+
+
+def seq_items(t, pos):
+    """the items of a node that the code treats as a list-shaped value at this position: every list; a tuple only
+    where it is indexed like a list (bundle elements), not where it is an opaque message argument"""
+    if isinstance(t, list):
+        return t
+    if is_tuple(t) and pos == 'elem':
+        return t['t']
+    return None
+
+
+def child_pos(items, k, x, pos):
+    bundle_shaped = bool(items) and is_numhead(items[0])
+    if bundle_shaped and k >= 1:
+        if pos == 'arg' and k == 1 and is_tuple(x):
+            return 'arg'            # _build_msg wants a list as second item of a bundle-shaped argument
+        return 'elem'
+    return 'arg'
+
+
+def coq_arg(t, tags, pos='elem'):
+    items = seq_items(t, pos)
+    if items is not None:
+        out = []
+        for k, x in enumerate(items):
+            if k == 0 and is_numhead(x):
+                tag = int(next(tags))
+                lat = numval(x)
+                out.append('(ATime %s %s)' % ('None' if lat is None else '(Some %s)' % cq(lat), cz(tag)))
+            else:
+                out.append(coq_arg(x, tags, child_pos(items, k, x, pos)))
+        return '(AList [' + '; '.join(out) + '])'
     if t is None:
         return 'ANone'
     if isinstance(t, bool):
         return '(ABool %s)' % ('true' if t else 'false')
-    if isinstance(t, list):
-        items = []
-        for k, x in enumerate(t):
-            if k == 0 and is_numhead(x):
-                tag = int(next(tags))
-                lat = numval(x)
-                items.append('(ATime %s %s)' % ('None' if lat is None else '(Some %s)' % cq(lat), cz(tag)))
-            else:
-                items.append(coq_arg(x, tags))
-        return '(AList [' + '; '.join(items) + '])'
     if 'i' in t:
         return '(AInt %s)' % cz(int(t['i']))
     if 'f' in t:
@@ -142,10 +174,17 @@ def coq_arg(t, tags):
         return '(AStr %s)' % cb(t['s'].encode('utf-8'))
     if 'y' in t:
         return '(ABytes %s)' % cb(bytes.fromhex(t['y']))
+    if 'ya' in t or 'ym' in t:      # bytearray / memoryview over bytes: blobs like bytes
+        return '(ABytes %s)' % cb(bytes.fromhex(t.get('ya') or t.get('ym') or ''))
     if 'z' in t:
         return '(ABytes (rp 0 %d))' % t['z']
     if t.get('o') == 'bytearray0':
         return '(ABytes [])'
+    if is_tuple(t):
+        # an opaque tuple argument: 4 items would be taken for a MIDI message (not in the model's language:
+        # such cases go to the implementation-only stream), any other length is an unsupported object
+        assert len(t['t']) != 4, 'a 4-tuple argument is not expressible in the model'
+        return 'AOther'
     return 'AOther'
 
 
@@ -339,21 +378,41 @@ def malform(rng, t):
 BASE_OFFSET = 3913056000 << 32        # the offset harness/impl/c06_osc.py gives SystemClock for the base-class interface
 
 
-def expected_tags(itf, send_time, t, out, ctx='main'):
-    """the timetag of every list head that is a number or None (DFS preorder), transcribed from the
-    documentation of send_bundle: None or negative -> immediately (1; 0 in NRT), otherwise
+def expected_tags(itf, send_time, t, out, ctx='main', pos='elem'):
+    """the timetag of every list head that is a number or None (DFS preorder, same traversal as coq_arg), transcribed
+    from the documentation of send_bundle: None or negative -> immediately (1; now in NRT), otherwise
     now + latency in 32.32 fixed point.  The float operations are the ones the library performs,
     so the comparison is exact."""
-    if isinstance(t, list):
-        if t and is_numhead(t[0]):
-            v = pyval(t[0])
+    items = seq_items(t, pos)
+    if items is not None:
+        if items and is_numhead(items[0]):
+            v = pyval(items[0])
             if itf == 'base':
                 out.append(1 if v is None or v < 0.0 else int((v + send_time) * 4294967296.0) + BASE_OFFSET)
             else:       # NRT: None/negative = now; absolute time outside a routine, from the routine's logical time inside one
                 lat = 0.0 if v is None or v < 0.0 else v
                 out.append(int((lat + send_time if ctx == 'routine' else lat) * 4294967296.0))
-        for x in t:
-            expected_tags(itf, send_time, x, out, ctx)
+        for k, x in enumerate(items):
+            expected_tags(itf, send_time, x, out, ctx, child_pos(items, k, x, pos))
+
+
+def Tup(*items):
+    return {'t': list(items)}
+
+
+def tuplify(rng, t, p, pos='elem', top=True):
+    """the sequence-type dimension: any list of a tree may be written as a tuple.  (A 4-tuple in argument position
+    would be taken for a MIDI message, which the model's language does not have: those stay lists here and are
+    exercised by the implementation-only stream.)"""
+    items = seq_items(t, pos)
+    if items is None or not isinstance(t, list):
+        return t
+    new = [tuplify(rng, x, p, child_pos(items, k, x, pos), False) for k, x in enumerate(items)]
+    if pos == 'arg' and len(new) > 1 and is_numhead(new[0]) and is_tuple(new[1]):
+        new[1] = new[1]['t']        # (the builder wants a list there, the size functions do not care: not expressible)
+    if not top and rng.random() < p and not (pos == 'arg' and len(new) == 4):
+        return {'t': new}
+    return new
 
 
 def build_cases(ctx):
@@ -410,6 +469,18 @@ def build_cases(ctx):
     # the uint64 edges of the timetag (OscBundleBuilder with a given timetag)
     for tt in (0, 1, 2, 2 ** 32 - 1, 2 ** 32, 2 ** 63, 2 ** 64 - 1, 2 ** 64, -1):
         cases.append({'kind': 'rawbundle', 'tt': str(tt), 'v': [None, [S('/a'), I(1)], [S('/b')]], 'send_time': 0.0, 'itf': 'base', 'cls': 'timetag_edge'})
+    # the sequence type of list-shaped values: tuples where the code only indexes (bundle elements: accepted like
+    # lists) and where it tests isinstance(list) (message arguments: unsupported objects), other blob containers
+    for v in ([S('/x'), Tup(S('/y'), I(1))], [S('/x'), Tup(S('/y'))], [S('/x'), Tup(S('/a'), I(1), S('b'), Fl(2.0), I(3))], [S('/x'), Tup()],
+              [S('/x'), Tup(Fl(0.5), [S('/y')])], [S('/x'), Tup(None, [S('/y')])], [S('/d_recv'), Y(b'ab'), Tup(S('/n_set'), I(1000), S('freq'))],
+              [S('/x'), [S('/y'), Tup(S('/z'), I(1))]], [S('/x'), {'ya': '616263'}, {'ym': '6162636465'}, I(1)],
+              [S('/x'), {'ym': '61'}], [S('/x'), [S('/y'), {'ya': '0001'}]]):
+        add('msg', v, 'seqtype_arg')
+    for v in ([Fl(0.2), Tup(S('/a'), I(1)), Tup(Fl(0.5), [S('/b')]), Tup(Fl(0.5), Tup(S('/c')))], [None, Tup(S('/a'), Tup(S('/c'), I(2)))],
+              [Fl(0.2), Tup(S('/a'), [S('/c'), I(2)], I(3), S('x'))], [I(0), Tup(S('/a'), I(1), I(2), I(3))], [Fl(0.2), Tup()], [Fl(0.2), Tup(I(3))],
+              [Fl(0.5), Tup(Fl(0.25), [S('/late')])], [None, Tup(None, Tup(None, Tup(S('/deep'), Y(b'abc'), S('é'))))]):
+        add('bundle', v, 'seqtype_elem')
+        cases[-1]['clump'] = [40, 64, 8192]
     add('msg', [S('/x')], 'noargs')
     add('msg', [S('/x'), None, True, False, []], 'coercions')
     add('msg', [S('/x'), S('['), I(1), S('['), Fl(2.0), S(']'), S('a'), S(']'), I(3)], 'arrays')
@@ -423,8 +494,15 @@ def build_cases(ctx):
     nm = ctx.n(200, 4000)
     for _ in range(nm):
         add('msg', g_msg(rng, rng.choice([0, 1, 2, 3, 4])), 'random_msg')
+        if rng.random() < 0.15:
+            cases[-1]['v'] = tuplify(rng, cases[-1]['v'], 0.3)
+            cases[-1]['cls'] = 'random_msg_tuples'
     for _ in range(ctx.n(110, 2000)):
         add('bundle', g_bundle(rng, rng.choice([1, 2, 3, 4])), 'random_bundle')
+        if rng.random() < 0.25:
+            cases[-1]['v'] = tuplify(rng, cases[-1]['v'], 0.4)
+            cases[-1]['cls'] = 'random_bundle_tuples'
+            cases[-1]['clump'] = [64, 8192]
     for _ in range(ctx.n(120, 2000)):
         base = g_msg(rng, rng.choice([0, 1, 2])) if rng.random() < 0.6 else g_bundle(rng, rng.choice([1, 2, 3]))
         t, kind = malform(rng, base)
@@ -556,6 +634,14 @@ COMPLETIONS = [
 ]
 
 
+def untuple(t):
+    if is_tuple(t):
+        return [untuple(x) for x in t['t']]
+    if isinstance(t, list):
+        return [untuple(x) for x in t]
+    return t
+
+
 def site_cases(ctx):
     rng = ctx.rng
     cases = []
@@ -569,6 +655,13 @@ def site_cases(ctx):
                 k += 1
                 cases.append({'kind': 'dsend', 'L': L, 'comp': comp, 'via': ['send', '_do_send', 'send'][k % 3],
                               'comp_fn': k % 4 == 0 and comp is not None, 'fill': 7 if k % 5 == 0 else 0, 'cls': 'dsend_boundary'})
+    # completion messages written as tuples: refused today (then nothing may be sent); if ever accepted, the
+    # prediction must cover them like the list form
+    for comp in (Tup(S('/n_set'), I(1000), S('freq')), Tup(S('/n_set'), I(1000), S('freq'), Fl(440.0)), Tup(S('/s_new'), S('x'), I(1), I(0), I(1)),
+                 [S('/d_recv'), Y(bytes(51)), Tup(S('/s_new'), S('x'), I(-1))]):
+        csize = 4 + enc_size(untuple(comp))
+        for T_ in (MAX_UDP - 4, MAX_UDP + 4):
+            cases.append({'kind': 'dsend', 'L': T_ - 16 - csize, 'comp': comp, 'via': 'send', 'cls': 'dsend_tuple_completion', 'may_refuse': True})
     # the real (unpadded) definition alone fits; with a blob-carrying completion message it straddles the limit
     for T in targets:
         for via in ('add', 'send'):
@@ -582,14 +675,14 @@ def site_cases(ctx):
         cases.append({'kind': 'dsend', 'L': rng.choice([1, 2, 3, 4, 1000, 8191, 30000, MAX_UDP - 4 - 16 - 4 - enc_size(comp) + rng.randint(-6, 6)]),
                       'comp': comp, 'via': rng.choice(['send', '_do_send']), 'comp_fn': rng.random() < 0.3, 'cls': 'dsend_random'})
 
-    def elems(per, total, jitter=True):
+    def elems(per, total, jitter=True, tuples=False):
         out, acc, j = [], 16, 0
         while acc < total:
             n = per + (rng.choice([0, 1, 2, 3, 5]) if jitter else 0)
             m = [S('/m%03d' % (j % 1000)), Y(bytes(n)), I(j)]
             if rng.random() < 0.15:
                 m.append(S('éé'))
-            out.append(m)
+            out.append({'t': m} if tuples and j % 2 == 0 else m)      # every other element written as a tuple
             acc += 4 + enc_size(m)
             j += 1
         return out
@@ -619,6 +712,9 @@ def site_cases(ctx):
               [S('/b_setn'), I(0), I(0), I(1626)] + [Fl(((j * 37) % 256 - 128) / 128.0) for j in range(1626)],
               [S('/b_setn'), I(0), I(1626), I(3)] + [Fl(0.0), Fl(-0.0), Fl(1.0)]):
         cases.append({'kind': 'sendmsg', 'v': v, 'cls': 'sendmsg'})
+    for kind_, lim_ in (('clumped', MAX_UDP), ('sync', MAX_UDP - SYNC)):
+        for tot in (lim_ - 1500, lim_ + 1500):
+            cases.append({'kind': kind_, 'time': Fl(0.2), 'els': elems(2000, tot, tuples=True), 'via': 'direct', 'cls': kind_ + '_tuple_elements'})
     cases.append({'kind': 'sync', 'time': None, 'els': [], 'via': 'direct', 'cls': 'sync_empty'})
     cases.append({'kind': 'clumped', 'time': None, 'els': [[None, [S('/a'), I(1)]], [S('/b')]], 'via': 'direct', 'cls': 'clumped_nested_none'})
     return cases
@@ -655,6 +751,11 @@ def check_sites(ctx, c):
     for k, o in zip(cases, out):
         c.evaluations += 1
         c.count('site:' + k.get('cls', k['kind']))
+        if k.get('may_refuse') and ('error' in o or any(cl.get('error') for cl in o.get('calls', []))):
+            if any(cl.get('dgrams') for cl in o.get('calls', [])):
+                fail('C06:refused_but_sent', 'the use site %s raised on %s but a datagram went out' % (k['kind'], show(k.get('comp'))), k, {}, None)
+            c.count('site:refused-as-expected')
+            continue
         if 'crash' in o or 'error' in o:
             fail('C06:site_error', 'use site %s raised %s on an acceptable input' % (k['kind'], o.get('crash') or o.get('error')), k, {'observed': o.get('crash') or o.get('error')}, None)
             continue
@@ -705,6 +806,8 @@ def check_sites(ctx, c):
                 if sent[0]['args'][2:] != [comp] or not o.get('file_written'):
                     fail('C06:d_load_message_differs', 'the /d_load fallback does not carry the completion message or wrote no file: %s' % show(sent[0]['args']), k, {}, 'send_path_choice')
             # the decision against the model, on the message that is to be sent
+            if is_tuple(comp) and len(comp['t']) == 4:
+                continue        # (a 4-tuple argument is not expressible in the model; the checks on what was sent apply)
             nbytes = o['def_bytes']['z'] if 'z' in o['def_bytes'] else len(o['def_bytes']['y']) // 2
             # (the prediction looks at the length of the definition only: zeros keep the generated file small)
             ch_items.append('(%s, %s)' % (coq_arg([S('/d_recv'), {'z': nbytes}, comp], iter([str(0)] * 1000)), 'true' if chose else 'false'))
@@ -916,6 +1019,36 @@ def correspond(ctx):
             c.failures.append(Failure('correspondence', 'a value that cannot be represented was accepted for sending: %r' % (k['v'],),
                                       signature='C06:unrepresentable_accepted', replay={'case': k, 'impl': o.get('build')}, found_input=True))
 
+    # argument types outside the model's language (4-tuples are taken for MIDI messages): whatever the builder accepts
+    # must be predicted at least as large as it is and must be OSC 1.0 for the independent reader
+    fcases = [{'kind': 'msg', 'v': v, 'itf': 'nrt'} for v in (
+        [S('/x'), Tup(I(1), I(2), I(3), I(4))], [S('/x'), Tup(True, I(256), I(-1), I(0)), I(7)], [S('/x'), Tup(I(1), I(2), I(3), Fl(4.0))],
+        [S('/x'), Tup(S('/a'), I(1), I(2), I(3))], [S('/d_recv'), Y(b'abc'), Tup(S('/n_set'), I(1000), S('freq'), Fl(440.0))],
+        [S('/x'), Tup(None, I(1), I(2), I(3))], [S('/d_recv'), Y(b'x'), [S('/y'), Tup(I(1), I(2), I(3), I(4))]],
+        [S('/x'), Tup(S('/y'), Y(bytes(5)), S('éé'), [S('/z')])], [S('/x'), [Fl(0.5), Tup(S('/y'))]])]
+    fcases += [{'kind': 'bundle', 'v': [Fl(0.2), [S('/x'), Tup(I(1), I(2), I(3), I(4))], Tup(S('/y'), Tup(I(9), I(8), I(7), I(6)))], 'itf': 'base', 'clump': [40]}]
+    fout = ctx.impl('c06_osc', {'cases': fcases})['out']
+    for k, o in zip(fcases, fout):
+        c.evaluations += 1
+        b = o.get('build', ['err', 4, 'crash'])
+        c.count('foreign:' + ('accepted' if b[0] == 'ok' else 'refused:%s' % b[2]))
+        if b[0] != 'ok':
+            continue
+        c.nontriv(('foreign', show(k['v'])))
+        d = bytes.fromhex(b[1])
+        why = None
+        if not (o['pred'] >= len(d)):
+            why = 'its predicted size is %s, below the %d bytes it encodes to' % (o['pred'] if o['pred'] >= 0 else 'undefined (the predictor raises)', len(d))
+        else:
+            try:
+                osc10.decode(d)
+            except osc10.Osc10Error as e:
+                why = 'its datagram is not OSC 1.0: %s' % e
+        if why:
+            c.failures.append(Failure('correspondence', '%s is accepted for sending, but %s' % (show(k['v']), why),
+                                      signature='C06:foreign_type_accepted', found_input=True, theorem='size_upper_bound',
+                                      replay={'check': 'foreign', 'case': k, 'impl': b[:1] + b[2:], 'predicted': o['pred']}))
+
     # _strpad4 on a range
     ns = list(range(0, 70)) + [rng.randrange(0, 70000) for _ in range(60)] + [65500, 65501, 65502, 65503, 65504]
     spo = ctx.impl('c06_osc', {'cases': [{'kind': 'strpad4', 'n': ns}]})['out'][0]
@@ -1109,6 +1242,8 @@ def probe_trees(ctx):
            ('msg', [S('/x'), [Fl(0.0), [S('/y')]]]), ('msg', [S('/x'), [None, [S('/y'), Y(b'abc')]]]),
            ('bundle', [Fl(0.2), [S('/x'), Y(b'abcde')], [S('/y'), S('éééé')]]),
            ('bundle', [None, [None, [S('/y')]]]), ('msg', [S('/é'), I(1)]), ('msg', [S('/x'), [None, [None, [S('/y')]]]]),
+           ('msg', [S('/x'), Tup(S('/y'), I(1))]), ('msg', [S('/d_recv'), Y(b'ab'), Tup(S('/n_set'), I(1000), S('freq'), Fl(440.0))]),
+           ('msg', [S('/x'), Tup(I(1), I(2), I(3), I(4))]), ('bundle', [Fl(0.2), Tup(S('/a'), I(1)), [S('/b'), Tup(S('/c'), Y(b'abcde'))]]),
            ('msg', [S('/x'), S('a\x00b')]), ('msg', [S('/x'), S('a\x00bcdefg'), I(5)]), ('msg', [S('/a\x00b'), I(1)]),
            ('msg', [S('/x'), S('\x00')]),
            ('bundle', [Fl(0.2), [S('/x'), S('ab\x00')]])]
@@ -1118,7 +1253,7 @@ def probe_trees(ctx):
         else:
             ts.append(('bundle', g_bundle(rng, rng.choice([1, 2, 3]))))
     for kind_, t_ in ts:          # everything so far is representable by construction, except the NUL probes
-        if not has_nul_str(pyval(t_)):
+        if not has_nul_str(pyval(t_)) and '"t":' not in json.dumps(t_):
             VALID_PROBES.add(id(t_))
     for _ in range(ctx.n(60, 600)):
         base = g_msg(rng, rng.choice([0, 1]), addrs=ADDRS)
@@ -1142,11 +1277,11 @@ def nested_time_violation(dec, outer=None):
 def has_nul_str(v):
     if isinstance(v, str):
         return '\x00' in v
-    return isinstance(v, list) and any(has_nul_str(x) for x in v)
+    return isinstance(v, (list, tuple)) and any(has_nul_str(x) for x in v)
 
 
 def has_odd_addr(v):
-    if isinstance(v, list):
+    if isinstance(v, (list, tuple)):
         if v and isinstance(v[0], str) and not v[0].isascii():
             return True
         return any(has_odd_addr(x) for x in v)
@@ -1154,7 +1289,7 @@ def has_odd_addr(v):
 
 
 def has_noslash(v):
-    if isinstance(v, list):
+    if isinstance(v, (list, tuple)):
         if v and isinstance(v[0], str) and not v[0].startswith('/'):
             return True
         return any(has_noslash(x) for x in v)
